@@ -81,11 +81,23 @@ class Case(object):
     def __init__(self, docs, tmpdir, top='', tag=''):
         _COUNTER[0] += 1
         self.docs = docs
+        self.tmpdir = tmpdir
         self.modname = 'xv11_%d_%d%s' % (os.getpid(), _COUNTER[0], tag)
-        self.source = gi.render_module(docs, top=top)
+        # a package next to the module, never looked up before in this process (see gi.MODULE_REQS)
+        self.pkg = 'xvp_%d_%d%s' % (os.getpid(), _COUNTER[0], tag)
+        self.source = gi.render_module(docs, top=top, pkg=self.pkg)
         self.modpath = os.path.join(tmpdir, self.modname + '.py')
         with open(self.modpath, 'w') as f:
             f.write(self.source)
+        os.makedirs(os.path.join(tmpdir, self.pkg))
+        for fn in ('__init__.py', 'real_sub.py'):
+            with open(os.path.join(tmpdir, self.pkg, fn), 'w') as f:
+                f.write('X = 1\n')
+
+    def sat_field(self):
+        ents = [(gd.UNMET_A, 0), (gd.UNMET_B, 0), (gd.MET, 1)]
+        ents += [('module:' + m.replace('{PKG}', self.pkg), 1 if ok else 0) for m, ok in gi.MODULE_REQS]
+        return '|'.join('%s=%d' % (enc(a), v) for a, v in ents)
 
     def parse(self):
         from xdoctest import core
@@ -142,7 +154,7 @@ def model_line(case, exs, history, defaults=None):
         if f is None:
             return None
         docs.append(f)
-    sat = '%s=0|%s=0|%s=1' % (enc(gd.UNMET_A), enc(gd.UNMET_B), enc(gd.MET))
+    sat = case.sat_field()
     mg = ','.join('%s=%d' % (n, v) for n, v in gi.MODGLOBALS)
     steps = ','.join('%d%s' % (i, oe) for i, oe in history) or '~'
     return '\t'.join(['history', mg, sat, str(len(docs))] + docs + [steps])
@@ -261,6 +273,7 @@ def run_history(case, history, defaults=None):
             e.config['default_runtime_state'] = cfg       # one shared dict, as runner.doctest_module pushes it
     recs = []
     with ProcState():
+        sys.path.insert(0, case.tmpdir)       # the generated package is importable, as a user's package would be
         buf = io.StringIO()
         with contextlib.redirect_stdout(buf):
             for i, oe in history:
@@ -283,6 +296,7 @@ def run_alone(case, i, defaults=None):
             exs = case.parse()
             if defaults:
                 exs[i].config['default_runtime_state'] = make_defaults(defaults)
+            sys.path.insert(0, case.tmpdir)
             buf = io.StringIO()
             with contextlib.redirect_stdout(buf):
                 rec = observe_run(case, exs[i], 'r')
@@ -336,6 +350,7 @@ def run_module_runner(case, times=2, defaults=None):
     doctest_example.DocTest.run = run
     try:
         with ProcState():
+            sys.path.insert(0, case.tmpdir)
             buf = io.StringIO()
             with contextlib.redirect_stdout(buf):
                 for _ in range(times):
@@ -358,6 +373,92 @@ def _LAST_SUMMARY(ex):
     skipped = len(ex._skipped_parts) == len(ex._parts)
     failed = ex.exc_info is not None
     return {'exc_info': ex.exc_info, 'passed': not failed and not skipped, 'skipped': skipped, 'failed': failed}
+
+
+# ------------------------------------------------------------------ text files through the pytest plugin
+CONFTEST = '''
+import json, os, pytest
+_COUNT = {}
+
+
+@pytest.hookimpl(hookwrapper=True)
+def pytest_runtest_makereport(item, call):
+    outcome = yield
+    rep = outcome.get_result()
+    dt = getattr(item, 'dtest', None)
+    if dt is None:
+        return
+    if rep.when == 'call' or (rep.when == 'setup' and rep.outcome != 'passed'):
+        base = os.path.basename(str(item.fspath))
+        k = _COUNT.get(base, 0)
+        _COUNT[base] = k + 1
+        parts = list(dt._parts or [])
+        ei = dt.exc_info
+        fp = None
+        if ei is not None and dt.failed_part in parts:
+            fp = parts.index(dt.failed_part)
+        rec = {'file': base, 'k': k, 'outcome': rep.outcome, 'exc': type(ei[1]).__name__ if ei else None, 'failed_part': fp,
+               'stdout': [[i, dt.logged_stdout[i]] for i in sorted(dt.logged_stdout)],
+               'skipped': [parts.index(p) for p in dt._skipped_parts]}
+        with open(os.path.join(os.path.dirname(str(item.fspath)), 'results.jsonl'), 'a') as f:
+            f.write(json.dumps(rec) + '\\n')
+'''
+
+
+def run_textfile_batch(files, tmpdir, name):
+    """files: {basename: text}. One pytest subprocess collects them all as text files (--xdoctest-glob, google
+    style: one doctest per Example block). Returns {basename: [record per doctest, in file order]} and the tail
+    of pytest's output. A record = what the plugin's DocTest object holds after the item ran."""
+    import subprocess
+    d = os.path.join(tmpdir, name)
+    os.makedirs(d)
+    with open(os.path.join(d, 'conftest.py'), 'w') as f:
+        f.write(CONFTEST)
+    for base, text in files.items():
+        with open(os.path.join(d, base), 'w') as f:
+            f.write(text)
+    env = dict(os.environ)
+    env['PYTHONDONTWRITEBYTECODE'] = '1'
+    p = subprocess.run([sys.executable, '-m', 'pytest', '-p', 'no:cacheprovider', '--xdoctest-glob=*.txt', '--xdoctest-style=google',
+                        '-q', '-x' if False else '-q', '--rootdir', d, d], cwd=d, env=env, stdout=subprocess.PIPE,
+                       stderr=subprocess.STDOUT, timeout=600)
+    out = {}
+    rp = os.path.join(d, 'results.jsonl')
+    if os.path.exists(rp):
+        with open(rp) as f:
+            for line in f:
+                r = json.loads(line)
+                out.setdefault(r['file'], []).append(
+                    '%s exc=%s failed_part=%s skipped=%s stdout=%s' % (r['outcome'], r['exc'], r['failed_part'], r['skipped'], r['stdout']))
+    return out, p.stdout.decode('utf8', 'replace')[-1500:]
+
+
+def check_textfiles(cases, tmpdir, name):
+    """cases: list of (docs, order). Two pytest subprocesses: one over the history files (the blocks of a case
+    in the given order, repetitions allowed, one file per case), one over files holding ONE block each (the
+    oracle: every doctest alone). Returns a list (per case) of failure dicts."""
+    hist = {}
+    single = {}
+    for c, (docs, order) in enumerate(cases):
+        hist['h%03d.txt' % c] = gi.render_text_file(docs, order)
+        for i in sorted(set(order)):
+            single['s%03d_%d.txt' % (c, i)] = gi.render_text_file(docs, [i])
+    alone, tail_a = run_textfile_batch(single, tmpdir, name + '_alone')
+    got, tail_h = run_textfile_batch(hist, tmpdir, name + '_hist')
+    res = []
+    for c, (docs, order) in enumerate(cases):
+        fails = []
+        recs = got.get('h%03d.txt' % c, [])
+        if len(recs) != len(order):
+            fails.append({'what': 'pytest did not run one doctest per Example block of the text file', 'observed': len(recs),
+                          'expected': len(order), 'pytest': tail_h[-400:]})
+        for k, (i, rec) in enumerate(zip(order, recs)):
+            exp = (alone.get('s%03d_%d.txt' % (c, i)) or ['<no result: %s>' % tail_a[-200:]])[0]
+            if rec != exp:
+                fails.append({'step': k, 'doc': i, 'what': 'a doctest of a text file (pytest plugin) behaves differently from the same '
+                              'doctest alone in its own file', 'observed': rec, 'expected': exp})
+        res.append({'failures': fails, 'records': recs, 'text': hist['h%03d.txt' % c]})
+    return res
 
 
 @contextlib.contextmanager
